@@ -251,9 +251,13 @@ impl<
                     .filter_map(|(k, v)| {
                         self.expiration(k)
                             .and_then(|t| {
+                                #[cfg(transparencies_stretto_verif)]
+                                crate::verif::yield_point("cleanup.after_check");
                                 if t.is_expired() {
                                     let cost = policy.cost(k);
                                     policy.remove(k);
+                                    #[cfg(transparencies_stretto_verif)]
+                                    crate::verif::yield_point("cleanup.after_policy_remove");
                                     self.try_remove(k, *v)
                                         .map(|maybe_sitem| {
                                             maybe_sitem.map(|sitem| CrateItem {
@@ -288,9 +292,13 @@ impl<
             for (k, v) in items.iter() {
                 let expiration = self.expiration(k);
                 if let Some(t) = expiration {
+                    #[cfg(transparencies_stretto_verif)]
+                    crate::verif::yield_point("cleanup.after_check");
                     if t.is_expired() {
                         let cost = policy.cost(k);
                         policy.remove(k);
+                        #[cfg(transparencies_stretto_verif)]
+                        crate::verif::yield_point("cleanup.after_policy_remove");
                         let removed_item = self.try_remove(k, *v)?;
                         if let Some(sitem) = removed_item {
                             removed_items.push(CrateItem {
